@@ -81,7 +81,9 @@ def _short(x):
     return s if len(s) < 160 else s[:100] + "...(%d chars)" % len(s)
 
 
-STACKS = [("client", {}), ("pooled", {"max_pool_size": 1}), ("pooled", {"max_pool_size": 2}), ("hash", {}), ("hash-pooled", {"max_pool_size": 1})]
+STACKS = [("client", {}), ("pooled", {"max_pool_size": 1}), ("pooled", {"max_pool_size": 2}), ("hash", {}), ("hash-pooled", {"max_pool_size": 1}),
+          # default_noreply given as a truthy value that is not a bool
+          ("client", {"default_noreply": 1}), ("pooled", {"max_pool_size": 1, "default_noreply": "yes"}), ("hash", {"default_noreply": 1})]
 
 
 def sweep_cases(tier, seed, interrupts=False, lib=None):
@@ -92,6 +94,8 @@ def sweep_cases(tier, seed, interrupts=False, lib=None):
                 for oi, r in enumerate(lib):
                     if ie and r["op"] not in faultlab.READ_OPS and tier == "quick" and (oi % 3):
                         continue       # ignore_exc only matters for reads; thin out the rest in the quick tier
+                    if "default_noreply" in extra and ("noreply" in r or r["op"] in faultlab.READ_OPS or ie or not warm):
+                        continue       # the spelled default only matters where the call relies on it
                     cfg = dict(extra, ignore_exc=ie)
                     pre = [{"op": {"op": "get", "key": "warmup"}}] if warm else []
                     # replies of one call arrive as separate segments (the hostile case: what a call does not read
@@ -201,7 +205,7 @@ def history_strategy(tier, interrupts=False):
                      st.one_of(st.just([]), st.just([]), st.lists(fault_strategy(interrupts), min_size=1, max_size=2)),
                      st.sampled_from([0, 0, 0, 0.5, 1.5, 61, 200]))
     kinds = st.sampled_from([("client", 1), ("pooled", 1), ("pooled", 1), ("hash", 1), ("hash", 2), ("hash", 3), ("hash-pooled", 2)])
-    cfg = st.fixed_dictionaries({"default_noreply": st.booleans(), "ignore_exc": st.booleans(),
+    cfg = st.fixed_dictionaries({"default_noreply": st.sampled_from([True, False, True, False, 1, "yes", 0, ""]), "ignore_exc": st.booleans(),
                                  "max_pool_size": st.sampled_from([1, 2, None]), "retry_attempts": st.sampled_from([0, 1, 2])})
     pieces = st.one_of(st.none(), st.lists(st.sampled_from([1, 2, 3, 7, 4096, 1 << 30]), min_size=1, max_size=4))
     return st.builds(lambda kn, c, calls, p, e, co: {"kind": kn[0], "nservers": kn[1], "cfg": c, "calls": calls, "pieces": p, "eintr": e, "coalesce": co},
